@@ -715,6 +715,13 @@ class Interp:
             r = self.hooks.override_call(self, fdecl, e, e['args'], cell)
             if r is not NotImplemented:
                 return
+            if e.get('zeroInit') and getattr(self.hooks, 'value_init_zero', False) and isinstance(cell.value, Obj) and not as_base:
+                # value-initialisation through a constructor that is not user-provided: zero-initialised first
+                # (modelled for the engines that ask for it: so far the cache engine)
+                zt = base_type(e.get('t', '')) or rec
+                while zt.endswith(']'):
+                    zt = zt[:zt.rindex('[')].strip()
+                self.zero_fill(cell.value, zt)
             argvals = self.eval_args(fdecl, e['args'])
             self.call(fdecl, cell, argvals, e)
             return
@@ -738,7 +745,13 @@ class Interp:
         if e.get('defaultCtor') and not e['args']:
             r = self.hooks.external_call(self, e.get('callee', rec), e, e['args'], cell)
             if r is NotImplemented:
-                # implicit default constructor: members stay undefined unless they have in-class initialisers
+                # implicit default constructor: members stay undefined unless they have in-class initialisers -
+                # or the object is value-initialised (`T()`), which zeroes every member first
+                if e.get('zeroInit') and getattr(self.hooks, 'value_init_zero', False) and isinstance(cell.value, Obj):
+                    zt = base_type(e.get('t', '')) or rec
+                    while zt.endswith(']'):
+                        zt = zt[:zt.rindex('[')].strip()
+                    self.zero_fill(cell.value, zt)
                 return
             return
         r = self.hooks.external_call(self, e.get('callee', rec), e, e['args'], cell)
@@ -746,6 +759,40 @@ class Interp:
             raise Unsupported('constructor %s at %s' % (e.get('callee'), self.loc(e)))
         if r is not None and not as_base:
             cell.value = r
+
+    def zero_fill(self, obj, rec_name, depth=0):
+        """zero-initialisation of an object of class type: scalars 0, pointers null, members of class type recursively"""
+        recs = [r for r in self.unit.records if (r.get('spec') or r['name']) == rec_name or r['name'] == rec_name]
+        if not recs:
+            # a member class of a template instantiation is named without its template arguments at the construction site
+            import re as _re
+
+            def bare(nm):
+                prev = None
+                while prev != nm:
+                    prev, nm = nm, _re.sub(r'<[^<>]*>', '', nm)
+                return nm
+            cands = [r for r in self.unit.records if bare(r['name']) == rec_name]
+            shapes = set(tuple((f['name'], bare(f['t'])) for f in r['fields']) for r in cands)
+            if len(shapes) == 1:
+                recs = cands[:1]  # every instantiation has the same members
+        if not recs or depth > 6:
+            return
+        for f in recs[0]['fields']:
+            t = f['t'].strip()
+            if t.endswith(']'):
+                continue  # member arrays are created on first access
+            bt = base_type(t)
+            if bt.endswith('*'):
+                obj.field(f['name']).value = NULL
+            elif is_float_type(bt):
+                obj.field(f['name']).value = Poly.const(0)
+            elif is_int_type(bt):
+                obj.field(f['name']).value = 0
+            elif not bt.startswith('std::'):
+                sub = Obj(bt, None, f['name'])
+                self.zero_fill(sub, bt, depth + 1)
+                obj.field(f['name']).value = sub
 
     def eval_args(self, fdecl, argnodes):
         vals = []
